@@ -7,6 +7,7 @@ import (
 
 	"github.com/cronokirby/saferith"
 	"github.com/fxamacker/cbor/v2"
+	"github.com/taurusgroup/multi-party-sig/internal/safecbor"
 	"github.com/taurusgroup/multi-party-sig/pkg/math/curve"
 )
 
@@ -158,7 +159,7 @@ func (p *Exponent) Equal(other Exponent) bool {
 // Constant returns the constant coefficient of the polynomial 'in the exponent'.
 func (p *Exponent) Constant() curve.Point {
 	c := p.group.NewPoint()
-	if p.IsConstant {
+	if p.IsConstant || len(p.coefficients) == 0 {
 		return c
 	}
 	return p.coefficients[0]
@@ -198,13 +199,24 @@ func (e *Exponent) UnmarshalBinary(data []byte) error {
 	if uint64(size) > uint64(len(data)-4)/32 {
 		return errors.New("exponent: number of coefficients exceeds the size of the data")
 	}
-	e.coefficients = make([]curve.Point, int(size))
-	for i := 0; i < len(e.coefficients); i++ {
-		e.coefficients[i] = group.NewPoint()
+	coefficients := make([]curve.Point, int(size))
+	for i := 0; i < len(coefficients); i++ {
+		coefficients[i] = group.NewPoint()
 	}
-	rawExponent := rawExponentData{Coefficients: e.coefficients}
-	if err := cbor.Unmarshal(data[4:], &rawExponent); err != nil {
+	rawExponent := rawExponentData{Coefficients: coefficients}
+	if err := safecbor.Unmarshal(data[4:], &rawExponent); err != nil {
 		return err
+	}
+	if len(rawExponent.Coefficients) != int(size) {
+		return errors.New("exponent: wrong number of coefficients")
+	}
+	for _, c := range rawExponent.Coefficients {
+		if c == nil {
+			return errors.New("exponent: missing coefficient")
+		}
+	}
+	if !rawExponent.IsConstant && size == 0 {
+		return errors.New("exponent: no coefficients")
 	}
 	e.group = group
 	e.coefficients = rawExponent.Coefficients
